@@ -55,8 +55,8 @@ func malformedCodecShapes(c *chk.Ctx) {
 		if err != nil {
 			c.Broken("bad exported case: %v", err)
 		}
-		mc := &mcase{ex: ex, pkg: fmt.Sprintf("gen/m%dh", i), top: ex.Schema.Files[0].Services[0].Methods[0].In}
-		em, err := w.Emit(set, ex.Schema, work.EmitOpts{Plugins: []string{"go-http"}})
+		mc := &mcase{ex: ex, pkg: fmt.Sprintf("gen/m%dh", i), top: svcFile(ex.Schema).Services[0].Methods[0].In}
+		em, err := w.Emit(set, ex.Schema, work.EmitOpts{Plugins: []string{"go-http"}, PerFile: true})
 		if err != nil {
 			c.Broken("%v", err)
 		}
@@ -146,7 +146,7 @@ func malformedCodecShapes(c *chk.Ctx) {
 					continue
 				}
 				valid := unb64s(e["jsonB64"])
-				ms := undecodable(valid)
+				ms := undecodable(valid, freeFormNames(mc.ex.Schema))
 				if per > 0 && len(ms) > per {
 					rnd.Shuffle(len(ms), func(i, j int) { ms[i], ms[j] = ms[j], ms[i] })
 					ms = ms[:per]
@@ -255,7 +255,7 @@ func wrongType(v any) (any, bool) {
 }
 
 // undecodable lists documents derived from a decodable one that no decoder of the message may accept.
-func undecodable(valid []byte) []mutBody {
+func undecodable(valid []byte, free map[string]bool) []mutBody {
 	var out []mutBody
 	dec := json.NewDecoder(bytes.NewReader(valid))
 	dec.UseNumber()
@@ -281,6 +281,9 @@ func undecodable(valid []byte) []mutBody {
 			sort.Strings(keys)
 			for _, k := range keys {
 				old := t[k]
+				if free[k] {
+					continue // any JSON value is a value of this member (Struct, Value, ListValue, Any)
+				}
 				if w, ok := wrongType(old); ok {
 					t[k] = w
 					emit(fmt.Sprintf("%s.%s: %T replaced by %T", path, k, old, w))
@@ -396,4 +399,28 @@ func mutFraming(id int) string {
 		return "chunked"
 	}
 	return "sized"
+}
+
+// freeFormNames: the JSON names of the fields whose type takes arbitrary JSON (google.protobuf.Struct,
+// Value, ListValue) or whose members depend on a type URL (Any): no replacement of a value below such a
+// member is "a type no field can take".
+func freeFormNames(s *abs.Schema) map[string]bool {
+	out := map[string]bool{}
+	var walk func(ms []*abs.Message)
+	walk = func(ms []*abs.Message) {
+		for _, m := range ms {
+			for _, f := range m.Fields {
+				switch f.Ref {
+				case "google.protobuf.Struct", "google.protobuf.Value", "google.protobuf.ListValue", "google.protobuf.Any":
+					out[f.JSON] = true
+					out[f.Name] = true
+				}
+			}
+			walk(m.Nested)
+		}
+	}
+	for _, f := range s.Files {
+		walk(f.Messages)
+	}
+	return out
 }
